@@ -617,6 +617,10 @@ def body_array(inp, indices, mesh=None, subsets="all"):
         base = ArrayTriangles.for_limits_and_scale(*mesh)
         s, ty, tx = inp["scale"], inp["shift"][0], inp["shift"][1]
         bv = np.asarray(base.vertices, dtype=float)
+        # for_limits_and_scale builds the rows with float steps of scale*sqrt(3)/2, so its vertices are a lattice only up to rounding;
+        # snap them to an exactly representable (affinely equivalent) lattice so that coincident vertices coincide exactly
+        height = mesh[4] * (3 ** 0.5 / 2)
+        bv = np.stack([np.round(bv[:, 0] / height) * (0.875 * mesh[4]), np.round(bv[:, 1] / (mesh[4] / 2)) * (mesh[4] / 2)], axis=1)
         verts = np.empty(bv.shape, dtype=object if is_sym(s) or is_sym(ty) else float)
         for i in range(bv.shape[0]):
             verts[i, 0] = bv[i, 0] * s + ty
@@ -746,8 +750,8 @@ def _containment(A, E, tag, T, P, shape, ref, target):
     E[tag + "mask_shape"] = [n]
     A[tag + "containing_indices_valid"] = bool(all(0 <= i < n for i in idx) and len(set(idx)) == len(idx))
     E[tag + "containing_indices_valid"] = True
-    A[tag + "containing_indices_is_where_mask"] = idx
-    E[tag + "containing_indices_is_where_mask"] = [i for i in range(n) if np.shape(mask) == (n,) and mask[i]]
+    A[tag + "containing_indices_is_where_mask"] = bool(idx == [i for i in range(n) if np.shape(mask) == (n,) and mask[i]])
+    E[tag + "containing_indices_is_where_mask"] = True
     inside = strictly_inside(ref, P[target])
     A[tag + "reference_point_inside_implies_mask"] = _implies(inside, bool(mask[target]) if np.shape(mask) == (n,) else False)
     E[tag + "reference_point_inside_implies_mask"] = True
@@ -940,11 +944,12 @@ def cases(tier):
         for coords, flipped, side in ss:
             out.append(("case_shape", {"coords": coords, "flipped": flipped, "side": side, "kind": kind}))
     if tier != "quick":
-        out.append(("case_shape", {"coords": S1[0], "flipped": False, "side": 1.0, "kind": "triangle"}, {"split": 4}))
+        for kind in ("triangle", "polygon3", "polygon4"):      # all shape vertices symbolic (non-linear barycentric tests)
+            out.append(("case_shape", {"coords": S1[0], "flipped": False, "side": 1.0, "kind": kind}, {"split": 4, "logic": "QF_NRA"}))
     # vertex array, one vertex symbolic (Point.mask treats the three vertices differently), shape symbolic
     fixed = [[None, None, 1.0, 0.0, -0.5, 2.0], [-1.0, -0.25, None, None, 0.5, 2.0], [1.0, 1.0, -2.0, 0.5, None, None]]
     for kind in ("point", "circle", "square"):
-        for f in (fixed if (tier != "quick" or kind != "square") else fixed[:1]):
+        for f in (fixed if kind != "square" else fixed[:1]):      # square with vertex 1 / 2 symbolic: z3 (nlsat) needs > 30 min
             out.append(("case_shape", {"coords": None, "flipped": False, "side": None, "kind": kind, "nvert": 3, "fixed": f}, {"logic": "QF_NRA"}))
     return out
 
